@@ -26,7 +26,7 @@ RES = [1024, 256, 1000, 1024]
 GAIN = [None, None, 2.0, None]
 FILE_AT = [(4.0, 1.0), (2.5, 1.0), (0.0, 0.0), (0.0, 0.0)]
 NAMES = ['CH1', 'CH2', 'CH3', 'CH4']
-ATM = [(0, 0), (3, 1), (1.5, 2), None]
+ATM = [(0, 0), (3, 1), (1.5, 2), None, (0, 1), (0, 2.5)]          # zero decades = linear amplifier, whatever the offset field says
 GM = [0.5, 3, None, 7.25]
 RM = [512, 4096, None, 1000]
 
@@ -461,6 +461,42 @@ def run_case(c):
                                 continue
                             if expect_ok(res, 'array', what, arr, base, t, laws, dict(c)):
                                 res.ok('array', len(S) > 0)
+            # a linear amplifier needs no resolution: plain arrays converted with the resolution omitted / None for the linear channels
+            for S in subsets(2):
+                if not S:
+                    continue
+                for gl in ([2.0] * len(S), None, [0.5, 4.0][:len(S)]):
+                    for rl in (None, [None] * len(S)):
+                        what = 'to_rfi(array, %r, amplification_type=%r, amplifier_gain=%r, resolution=%r)' % (S, [(0, 0)] * len(S), gl, rl)
+                        laws = {j: (lambda x, g=(gl[i] if gl else 1.0): x / g) for i, j in enumerate(S)}
+                        try:
+                            t = to_rfi(arr, S, amplification_type=[(0, 0)] * len(S), amplifier_gain=gl, resolution=rl)
+                        except Exception as e:
+                            res.violation('array:linear-without-resolution:%s' % type(e).__name__, '%s raised %s: %s' % (what, type(e).__name__, e), dict(c))
+                            continue
+                        if expect_ok(res, 'array', what, arr, base, t, laws, dict(c)):
+                            res.ok('array', True)
+            # mixed: a log channel with its resolution, a linear one with None
+            try:
+                t = to_rfi(arr, [0, 1], amplification_type=[(4, 1), (0, 0)], amplifier_gain=[None, 2.0], resolution=[1024, None])
+                if expect_ok(res, 'array', 'to_rfi(array, [0, 1], log + linear, resolution=[1024, None])', arr, base, t,
+                             {0: lambda x: 10 ** (4 * x / 1024.0), 1: lambda x: x / 2.0}, dict(c)):
+                    res.ok('array', True)
+            except Exception as e:
+                res.violation('array:linear-without-resolution:%s' % type(e).__name__, 'to_rfi(array, [0, 1], log + linear, resolution=[1024, None]) raised %s: %s' % (type(e).__name__, e), dict(c))
+            # settings as lists of LISTS (the caller's nested containers come back as they were)
+            nested = [[4.0, 0.0], [0.0, 0.0], [4.0, 1.0]]
+            snap = repr(nested)
+            inner = [id(x) for x in nested]
+            try:
+                to_rfi(arr, [0, 1, 2], amplification_type=nested, amplifier_gain=[None, 2.0, None], resolution=[1024, 256, 1000])
+                to_rfi(d, [0, 1, 2], amplification_type=nested, amplifier_gain=[None, 2.0, None], resolution=[1024, 256, 1000])
+            except Exception as e:
+                res.violation('array:nested-lists-raises:%s' % type(e).__name__, 'to_rfi with amplification_type=%s raised %s: %s' % (snap, type(e).__name__, e), dict(c))
+            if repr(nested) != snap or [id(x) for x in nested] != inner:
+                res.violation('array:nested-argument-changed', 'to_rfi changed the caller\'s amplification_type from %s to %r' % (snap, nested), dict(c))
+            else:
+                res.ok('array', True)
             if not np.array_equal(arr, base):
                 res.violation('array:input-changed', 'to_rfi changed its input array', dict(c))
             res.sample({'container': 'plain ndarray', 'channels': 'ordered subsets of size <= 2'})
